@@ -23,6 +23,13 @@ pub fn run(_args: &Args) -> Report {
         let (t, c) = pairs[i as usize];
         let e = t + c;
         rep.case(&format!("{t},{c}"), true);
+        // the result must not depend on earlier calls: precede it by calls with the same sum split
+        // differently and with the same t / same c (a stale cache keyed on part of the input shows)
+        if c >= 1 {
+            let _ = catch(|| StarkDomains::new(Felt::from(t + 1), Felt::from(c - 1)));
+        } else if t >= 1 {
+            let _ = catch(|| StarkDomains::new(Felt::from(t - 1), Felt::from(c + 1)));
+        }
         let d = match catch(|| StarkDomains::new(Felt::from(t), Felt::from(c))) {
             Ok(d) => d,
             Err(p) => {
@@ -59,6 +66,12 @@ pub fn run(_args: &Args) -> Report {
         }
         if d.trace_generator != pow_big(d.eval_generator, &two_pow(c)) {
             bad("relation", "trace_generator != eval_generator^(2^c)");
+        }
+        // and a repeated call gives the same answer
+        if let Ok(d2) = catch(|| StarkDomains::new(Felt::from(t), Felt::from(c))) {
+            if d2 != d {
+                bad("nondeterministic", "two calls with the same (t, c) differ");
+            }
         }
     });
     total.count("pairs", pairs.len() as u64);
